@@ -1,22 +1,37 @@
 /-
 C45 — executable model of the hash keys of AD operators
-(`porepy.numerics.ad.operators`: `Operator._key` and the `_key` overrides of the leaf classes,
-`operator_functions.AbstractFunction.__call__` for function-evaluation nodes,
-`grid_operators.Divergence._key`).
+(`porepy.numerics.ad.operators`: `Operator._key` / `__hash__` and the `_key` overrides of the leaf classes,
+`operator_functions.AbstractFunction.__call__` for function-evaluation nodes, `grid_operators.Divergence._key`,
+`ad_utils.MergedOperator._key`, `surrogate_operator.SurrogateOperator` which uses the base-class key).
 
-The real key is a string.  The model key is the *lexed* string: a list of tokens, one token per
-piece of the string (`(var`, `, name=p`, `, domain=0`, `)`, ` `, `add`, …).  `render` turns the token list
-back into the string; the correspondence check compares `render (key cfg t)` with the real `_key()`
-character by character.  Leaf data that the code identifies by a digest (dense / sparse arrays: sha256;
-projection index arrays: sha256 after the repair, numpy's `str` before) is represented by that digest
-string; the digests are computed by the harness.
+The real key is a string.  The model has three layers:
 
-`Cfg` selects, defect by defect, between the key as the property demands it (`Cfg.repaired`, all flags
-true; this is what the proposed `fixes/C45-*.diff` produce) and the key as built by the code before the
-respective repair.  The theorems are about `Cfg.repaired`; the other configurations exist to exhibit
-the collisions and to keep the correspondence exact on a tree where a repair is not applied (yet).
+* `Tree` — operator trees with the identifying data of their leaves;
+* `key : Cfg → Tree → List Tok` — the *lexed* key: one token per piece of the string
+  (`(var`, `, name=p`, `, domain=0`, `)`, ` `, `add`, …);
+* `renderL : List Tok → List Char` — the key string itself (`render` = the same as a `String`), and
+  `lex : List Char → Option (List Tok)`, the decoder used to prove that rendering loses nothing.
+
+Strings inside the model (names, digests) are `List Char`, so that the string-level theorems do not depend on
+the representation of `String`.  Leaf data that the code identifies by a digest (dense / sparse arrays,
+projection index arrays: sha256) is represented by that digest; digests are computed by the harness.  A
+scalar is represented by python's `repr` of its float value, which is what the key shows.
+
+`Cfg` selects, defect by defect, between the key as the property demands it (`Cfg.repaired`, all flags true;
+this is what `fixes/C45-*.diff` produce) and the key as built before the respective repair.  The theorems are
+about `Cfg.repaired`; the other configurations exhibit the collisions and keep the correspondence exact on a
+tree where a repair is not applied.
 -/
 namespace PorepyVerif.C45
+
+open Lean in
+/-- `cl!"abc"` = `['a', 'b', 'c']` -/
+macro:max "cl!" s:str : term => do
+  let cs := s.getString.toList
+  let elems ← cs.toArray.mapM (fun c => `($(Syntax.mkCharLit c)))
+  `([$elems,*])
+
+abbrev Str := List Char
 
 /-- binary operations that the arithmetic overloads produce (`Operations.value`) -/
 inductive BinOp where
@@ -28,48 +43,55 @@ inductive DomType where
   | subdomains | interfaces | boundary
   deriving DecidableEq, Repr
 
-/-- leaf classes (and the function part of an evaluation node) -/
+/-- classes whose key opens with `(<class tag>` followed by labelled fields -/
 inductive Kind where
-  | var | mdvar | tdda | scalar | dense | sparse | proj | plist | div | function
+  | var | mdvar | tdda | dense | proj | plist | div | function | merged
   deriving DecidableEq, Repr
 
-/-- field labels inside a leaf key -/
-inductive Lbl where
-  | name | domainType | domain | domains | timeStep | iterate | value | shape | hash
-  | rangeIdx | domainIdx | domainSize | rangeSize | rangeSizeT | dim | subdomains | fnId | nargs
+inductive StrLbl where
+  | name | hash | rangeIdx | domainIdx | matrixKey
+  | domainSizeOld   -- unrepaired projection key only: `domain_size=` followed by the domain indices
   deriving DecidableEq, Repr
 
-/-- field values -/
-inductive Val where
-  | str (s : String)
-  | nat (n : Nat)
-  | int (i : Int)
-  | rat (q : Rat)
-  | nats (l : List Nat)           -- python list of ints
-  | tuple (l : List Nat)          -- python tuple of ints (array shape)
-  | dtype (d : DomType)
-  | arr (digest : String) (len : Nat)  -- an index array: digest string (what the key shows) and its length
-  deriving DecidableEq
+inductive NatLbl where
+  | domain | domainSize | dim | fnId
+  deriving DecidableEq, Repr
+
+inductive IntLbl where
+  | timeStep | iterate
+  deriving DecidableEq, Repr
+
+inductive ListLbl where
+  | domains | subdomains
+  deriving DecidableEq, Repr
 
 /-- tokens of a key string -/
 inductive Tok where
-  | op (o : BinOp)        -- `add` …
-  | ev                    -- `evaluate`
-  | sp                    -- ` ` (separator of `" ".join`)
-  | lpar (k : Kind)       -- `(var` …
-  | rpar                  -- `)`
-  | fld (l : Lbl) (v : Val)  -- `, name=p` …
-  | comma                 -- `, ` between the members of a projection list
-  | rbr                   -- `])` closing a projection list
-  | projRepr (dsize rlen dlen : Nat) (tr : Bool)  -- `repr` of a projection (unrepaired projection list only)
+  | op (o : BinOp)                -- `add` …
+  | ev                            -- `evaluate`
+  | sp                            -- ` ` (separator of `" ".join`)
+  | lpar (k : Kind)               -- `(var` …
+  | rpar                          -- `)`
+  | comma                         -- `, ` between the members of a projection list
+  | rbr                           -- `])` closing a projection list
+  | scalar (repr : Str)           -- `(scalar, 2.0`
+  | sparse (fmt : Str) (rows cols : Nat) (hex : Str)   -- `(sparse_array, hash=csr_matrix_(2, 2)_<hex>`
+  | fstr (l : StrLbl) (s : Str)   -- `, name=p` …
+  | dtype (d : DomType)           -- `, domain_type=subdomains`
+  | fnat (l : NatLbl) (n : Nat)   -- `, domain=0` …
+  | nargs (n : Nat)               -- `nargs=2`
+  | rangeSize (n : Nat) (tr : Bool)  -- `, range_size=3` / `, range_size=3, transposed`
+  | fint (l : IntLbl) (i : Int)   -- `, time_step_index=-1`
+  | fnats (l : ListLbl) (ns : List Nat)  -- `, domains=[0, 1]`
+  | shape (ns : List Nat)         -- `, shape=(2, 3)`
+  | physics (pk : Str) (inner : Option Str)  -- `, physics_key=flow` / `…, inner_physics_key=x`
+  | projRepr (dsize : Nat) (tr : Bool)  -- `repr` of a projection (unrepaired projection list only)
   deriving DecidableEq
 
-/-- identifying data of a `Projection`: index arrays (digest, length), sizes, transposed flag of the slicer -/
+/-- identifying data of a `Projection`: digests of the index arrays, sizes, transposed flag of the slicer -/
 structure Proj where
-  rng : String
-  rngLen : Nat
-  dom : String
-  domLen : Nat
+  rng : Str
+  dom : Str
   dsize : Nat
   rsize : Nat
   transposed : Bool
@@ -78,23 +100,25 @@ structure Proj where
 /-- leaves of an operator tree with their identifying data.
     `ts`/`it` are the private time-step / iterate indices (−1 = current). -/
 inductive Leaf where
-  | var (name : String) (dt : DomType) (dom : Nat) (ts it : Int)
-  | mdvar (name : String) (dt : DomType) (doms : List Nat) (ts it : Int)
-  | tdda (name : String) (dt : DomType) (doms : List Nat) (ts : Int)
-  | scalar (v : Rat)
-  | dense (shape : List Nat) (hash : String)
-  | sparse (hash : String)
+  | var (name : Str) (dt : DomType) (dom : Nat) (ts it : Int)
+  | mdvar (name : Str) (dt : DomType) (doms : List Nat) (ts it : Int)
+  | tdda (name : Str) (dt : DomType) (doms : List Nat) (ts : Int)
+  | scalar (repr : Str)
+  | dense (shape : List Nat) (hash : Str)
+  | sparse (fmt : Str) (rows cols : Nat) (hex : Str)
   | proj (p : Proj)
   | plist (ps : List Proj)
   | div (dim : Nat) (sds : List Nat)
+  | merged (name : Str) (dt : DomType) (doms : List Nat) (matrixKey physicsKey : Str) (inner : Option Str)
   deriving DecidableEq
 
 mutual
-/-- operator trees -/
+/-- operator trees.  `eval` is a function evaluation: `fid = some i` for `AbstractFunction.__call__`
+    (identity `i` of the callable), `fid = none` for a `SurrogateOperator` (identified by its name). -/
 inductive Tree where
   | leaf (l : Leaf)
   | bin (o : BinOp) (a b : Tree)
-  | eval (fname : String) (fid : Nat) (args : Args)
+  | eval (fname : Str) (fid : Option Nat) (args : Args)
 /-- argument lists of function evaluations -/
 inductive Args where
   | nil
@@ -117,23 +141,25 @@ structure Cfg where
   domType : Bool
   /-- the shape is part of the key of a dense array -/
   denseShape : Bool
+  /-- the domain type is part of the key of a merged (discretization) operator -/
+  mergedDomType : Bool
   deriving DecidableEq, Repr
 
 /-- the key construction demanded by the property -/
-def Cfg.repaired : Cfg := ⟨true, true, true, true, true, true⟩
+def Cfg.repaired : Cfg := ⟨true, true, true, true, true, true, true⟩
 /-- the key construction of the pinned commit -/
-def Cfg.original : Cfg := ⟨false, false, false, false, false, false⟩
+def Cfg.original : Cfg := ⟨false, false, false, false, false, false, false⟩
 
 /-- `Projection._key` -/
 def projKey (c : Cfg) (p : Proj) : List Tok :=
-  [ .lpar .proj, .fld .rangeIdx (.arr p.rng p.rngLen), .rpar,
-    .fld .domainIdx (.arr p.dom p.domLen),
-    .fld .domainSize (if c.domSize then .nat p.dsize else .arr p.dom p.domLen),
-    .fld (if p.transposed then .rangeSizeT else .rangeSize) (.nat p.rsize) ]
+  [ .lpar .proj, .fstr .rangeIdx p.rng, .rpar, .fstr .domainIdx p.dom,
+    (if c.domSize then .fnat .domainSize p.dsize else .fstr .domainSizeOld p.dom),
+    .rangeSize p.rsize p.transposed ]
 
-/-- member of a projection list: its key (repaired) or its `repr` (original) -/
+/-- member of a projection list: its key (repaired) or its `repr` (original; the lengths of the index
+    arrays, which `repr` also shows, are not part of the model any more) -/
 def memberKey (c : Cfg) (p : Proj) : List Tok :=
-  if c.plistKeys then projKey c p else [.projRepr p.dsize p.rngLen p.domLen p.transposed]
+  if c.plistKeys then projKey c p else [.projRepr p.dsize p.transposed]
 
 /-- the members after the first one, each preceded by `, `, then the closing bracket -/
 def membersTail (c : Cfg) : List Proj → List Tok
@@ -145,35 +171,38 @@ def membersKey (c : Cfg) : List Proj → List Tok
   | [] => [.rbr]
   | p :: ps => memberKey c p ++ membersTail c ps
 
-/-- time-step / iterate / domain-type fields are present only with the respective repair -/
-def optFld (b : Bool) (l : Lbl) (v : Val) : List Tok := if b then [.fld l v] else []
+/-- a field that is present only with the respective repair -/
+def opt (b : Bool) (t : Tok) : List Tok := if b then [t] else []
 
 /-- `_key` of the leaf classes -/
 def leafKey (c : Cfg) : Leaf → List Tok
   | .var name dt dom ts it =>
-      [.lpar .var, .fld .name (.str name)] ++ optFld c.domType .domainType (.dtype dt)
-        ++ [.fld .domain (.nat dom)]
-        ++ optFld c.timeIdx .timeStep (.int ts) ++ optFld c.timeIdx .iterate (.int it) ++ [.rpar]
+      [.lpar .var, .fstr .name name] ++ opt c.domType (.dtype dt) ++ [.fnat .domain dom]
+        ++ opt c.timeIdx (.fint .timeStep ts) ++ opt c.timeIdx (.fint .iterate it) ++ [.rpar]
   | .mdvar name dt doms ts it =>
-      [.lpar .mdvar, .fld .name (.str name)] ++ optFld c.domType .domainType (.dtype dt)
-        ++ [.fld .domains (.nats doms)]
-        ++ optFld c.timeIdx .timeStep (.int ts) ++ optFld c.timeIdx .iterate (.int it) ++ [.rpar]
+      [.lpar .mdvar, .fstr .name name] ++ opt c.domType (.dtype dt) ++ [.fnats .domains doms]
+        ++ opt c.timeIdx (.fint .timeStep ts) ++ opt c.timeIdx (.fint .iterate it) ++ [.rpar]
   | .tdda name dt doms ts =>
-      [.lpar .tdda, .fld .name (.str name)] ++ optFld c.domType .domainType (.dtype dt)
-        ++ [.fld .domains (.nats doms)]
-        ++ optFld c.timeIdx .timeStep (.int ts) ++ [.rpar]
-  | .scalar v => [.lpar .scalar, .fld .value (.rat v), .rpar]
-  | .dense shape hash =>
-      [.lpar .dense] ++ optFld c.denseShape .shape (.tuple shape) ++ [.fld .hash (.str hash), .rpar]
-  | .sparse hash => [.lpar .sparse, .fld .hash (.str hash), .rpar]
+      [.lpar .tdda, .fstr .name name] ++ opt c.domType (.dtype dt) ++ [.fnats .domains doms]
+        ++ opt c.timeIdx (.fint .timeStep ts) ++ [.rpar]
+  | .scalar r => [.scalar r, .rpar]
+  | .dense shape hash => [.lpar .dense] ++ opt c.denseShape (.shape shape) ++ [.fstr .hash hash, .rpar]
+  | .sparse fmt r cl hex => [.sparse fmt r cl hex, .rpar]
   | .proj p => projKey c p
   | .plist ps => .lpar .plist :: membersKey c ps
-  | .div dim sds => [.lpar .div, .fld .dim (.nat dim), .fld .subdomains (.nats sds), .rpar]
+  | .div dim sds => [.lpar .div, .fnat .dim dim, .fnats .subdomains sds, .rpar]
+  | .merged name dt doms mk pk inner =>
+      [.lpar .merged, .fstr .name name] ++ opt c.mergedDomType (.dtype dt)
+        ++ [.fnats .domains doms, .rpar, .fstr .matrixKey mk, .physics pk inner]
 
 /-- number of arguments -/
 def Args.length : Args → Nat
   | .nil => 0
   | .cons _ ts => ts.length + 1
+
+/-- the function part of an evaluation node: `(function, name=f, id=7)` / `(function, name=f)` -/
+def fnKey (fname : Str) (fid : Option Nat) : List Tok :=
+  [.lpar .function, .fstr .name fname] ++ (match fid with | some i => [.fnat .fnId i] | none => []) ++ [.rpar]
 
 mutual
 /-- `Operator._key`: operation, then the keys of the children, joined by blanks.  A function
@@ -182,10 +211,8 @@ def key (c : Cfg) : Tree → List Tok
   | .leaf l => leafKey c l
   | .bin o a b => .op o :: .sp :: (key c a ++ .sp :: key c b)
   | .eval fname fid args =>
-      (if c.evalFn then
-        [.ev, .sp, .lpar .function, .fld .name (.str fname), .fld .fnId (.nat fid), .rpar, .sp,
-         .fld .nargs (.nat args.length)]
-       else [.ev]) ++ argsKey c args
+      (if c.evalFn then [.ev, .sp] ++ fnKey fname fid ++ [.sp, .nargs args.length] else [.ev])
+        ++ argsKey c args
 /-- every child key is preceded by a blank -/
 def argsKey (c : Cfg) : Args → List Tok
   | .nil => []
@@ -201,74 +228,343 @@ def npSummary (threshold edge : Nat) (l : List Nat) : List (Option Nat) :=
     (l.take edge).map some ++ [none] ++ (l.drop (l.length - edge)).map some
   else l.map some
 
-/-! ### rendering of the token list as the key string (used by the driver only) -/
+/-! ### the key string -/
 
-def BinOp.toStr : BinOp → String
-  | .add => "add" | .sub => "sub" | .mul => "mul" | .div => "div" | .pow => "pow" | .matmul => "matmul"
+def digitChar (d : Nat) : Char :=
+  match d with
+  | 0 => '0' | 1 => '1' | 2 => '2' | 3 => '3' | 4 => '4' | 5 => '5' | 6 => '6' | 7 => '7' | 8 => '8' | _ => '9'
 
-def DomType.toStr : DomType → String
-  | .subdomains => "subdomains" | .interfaces => "interfaces" | .boundary => "boundary grids"
+/-- decimal digits of `n` in front of `acc` (`fuel > n` suffices) -/
+def natCharsAux : Nat → Nat → List Char → List Char
+  | 0, _, acc => acc
+  | fuel + 1, n, acc =>
+    if n / 10 = 0 then digitChar (n % 10) :: acc
+    else natCharsAux fuel (n / 10) (digitChar (n % 10) :: acc)
 
-def Kind.toStr : Kind → String
-  | .var => "(var" | .mdvar => "(mdvar" | .tdda => "(time_dependent_dense_array" | .scalar => "(scalar"
-  | .dense => "(dense_array" | .sparse => "(sparse_array" | .proj => "(prolongation"
-  | .plist => "(slicing_operator_list, operators=[" | .div => "(divergence" | .function => "(function"
+/-- `str(n)` -/
+def natChars (n : Nat) : List Char := natCharsAux (n + 1) n []
 
-def Lbl.toStr : Lbl → String
-  | .name => "name" | .domainType => "domain_type" | .domain => "domain" | .domains => "domains"
-  | .timeStep => "time_step_index" | .iterate => "iterate_index" | .value => "value" | .shape => "shape"
-  | .hash => "hash" | .rangeIdx => "range_indices" | .domainIdx => "domain_indices"
-  | .domainSize => "domain_size" | .rangeSize => "range_size" | .rangeSizeT => "range_size"
-  | .dim => "dim" | .subdomains => "subdomains" | .fnId => "id" | .nargs => "nargs"
+/-- `str(i)` -/
+def intChars : Int → List Char
+  | .ofNat n => natChars n
+  | .negSucc n => '-' :: natChars (n + 1)
 
-def joinWith (sep : String) : List String → String
-  | [] => ""
-  | [a] => a
-  | a :: l => a ++ sep ++ joinWith sep l
+/-- `a, b, c` -/
+def natsSep : List Nat → List Char
+  | [] => []
+  | [a] => natChars a
+  | a :: l => natChars a ++ ',' :: ' ' :: natsSep l
 
-/-- decimal digits of `r / d` (0 ≤ r < d) while the expansion has not terminated, at most `fuel` digits -/
-def fracDigits (d : Nat) : Nat → Nat → String
-  | 0, _ => ""
-  | fuel + 1, r => if r = 0 then "" else toString (r * 10 / d) ++ fracDigits d fuel (r * 10 % d)
+/-- python `repr` of a list of ints: `[0, 1]` -/
+def listChars (l : List Nat) : List Char := '[' :: (natsSep l ++ [']'])
 
-/-- python's `repr(float)` for values with a short terminating decimal expansion (the generator only
-    produces dyadic rationals of moderate size): `2.0`, `-1.5`, `0.125` -/
-def renderFloat (q : Rat) : String :=
-  let a := q.num.natAbs
-  let d := q.den
-  let fr := fracDigits d 60 (a % d)
-  (if q.num < 0 then "-" else "") ++ toString (a / d) ++ "." ++ (if fr.isEmpty then "0" else fr)
+/-- python `repr` of a tuple of ints: `()`, `(6,)`, `(2, 3)` -/
+def tupleChars : List Nat → List Char
+  | [a] => '(' :: (natChars a ++ [',', ')'])
+  | l => '(' :: (natsSep l ++ [')'])
 
-def Val.toStr : Val → String
-  | .str s => s
-  | .nat n => toString n
-  | .int i => toString i
-  | .rat q => renderFloat q
-  | .nats l => "[" ++ joinWith ", " (l.map toString) ++ "]"
-  | .tuple l => match l with
-    | [a] => "(" ++ toString a ++ ",)"
-    | _ => "(" ++ joinWith ", " (l.map toString) ++ ")"
-  | .dtype d => d.toStr
-  | .arr digest _ => digest
+def BinOp.chars : BinOp → List Char
+  | .add => cl!"add" | .sub => cl!"sub" | .mul => cl!"mul" | .div => cl!"div" | .pow => cl!"pow"
+  | .matmul => cl!"matmul"
 
-def Tok.toStr : Tok → String
-  | .op o => o.toStr
-  | .ev => "evaluate"
-  | .sp => " "
-  | .lpar k => k.toStr
-  | .rpar => ")"
-  | .fld .value v => ", " ++ v.toStr
-  | .fld .nargs v => "nargs=" ++ v.toStr
-  | .fld .rangeSizeT v => ", range_size=" ++ v.toStr ++ ", transposed"
-  | .fld l v => ", " ++ l.toStr ++ "=" ++ v.toStr
-  | .comma => ", "
-  | .rbr => "])"
-  | .projRepr dsize rlen dlen tr =>
-      "Projection operator.\nThe projection maps from " ++ toString dsize ++ " to " ++ toString rlen
-        ++ " dimensions.\nThe projection maps " ++ toString dlen ++ " elements.\n"
-        ++ (if tr then "The operator is transposed." else "")
+def DomType.chars : DomType → List Char
+  | .subdomains => cl!", domain_type=subdomains"
+  | .interfaces => cl!", domain_type=interfaces"
+  | .boundary => cl!", domain_type=boundary grids"
+
+def Kind.chars : Kind → List Char
+  | .var => cl!"(var" | .mdvar => cl!"(mdvar" | .tdda => cl!"(time_dependent_dense_array"
+  | .dense => cl!"(dense_array" | .proj => cl!"(prolongation"
+  | .plist => cl!"(slicing_operator_list, operators=[" | .div => cl!"(divergence"
+  | .function => cl!"(function" | .merged => cl!"(Merged_operator"
+
+def StrLbl.chars : StrLbl → List Char
+  | .name => cl!", name=" | .hash => cl!", hash=" | .rangeIdx => cl!", range_indices="
+  | .domainIdx => cl!", domain_indices=" | .matrixKey => cl!", discretization_matrix_key="
+  | .domainSizeOld => cl!", domain_size="
+
+def NatLbl.chars : NatLbl → List Char
+  | .domain => cl!", domain=" | .domainSize => cl!", domain_size=" | .dim => cl!", dim="
+  | .fnId => cl!", id="
+
+def IntLbl.chars : IntLbl → List Char
+  | .timeStep => cl!", time_step_index=" | .iterate => cl!", iterate_index="
+
+def ListLbl.chars : ListLbl → List Char
+  | .domains => cl!", domains=" | .subdomains => cl!", subdomains="
+
+/-- the fixed text a token starts with -/
+def Tok.lit : Tok → List Char
+  | .op o => o.chars
+  | .ev => cl!"evaluate"
+  | .sp => cl!" "
+  | .lpar k => k.chars
+  | .rpar => cl!")"
+  | .comma => cl!", "
+  | .rbr => cl!"])"
+  | .scalar _ => cl!"(scalar, "
+  | .sparse .. => cl!"(sparse_array, hash="
+  | .fstr l _ => l.chars
+  | .dtype d => d.chars
+  | .fnat l _ => l.chars
+  | .nargs _ => cl!"nargs="
+  | .rangeSize .. => cl!", range_size="
+  | .fint l _ => l.chars
+  | .fnats l _ => l.chars
+  | .shape _ => cl!", shape="
+  | .physics .. => cl!", physics_key="
+  | .projRepr .. => cl!"Projection operator.\nThe projection maps from "
+
+/-- the text after the fixed beginning: the value(s) of the token -/
+def Tok.body : Tok → List Char
+  | .scalar r => r
+  | .sparse fmt r c hex => fmt ++ cl!"_(" ++ natChars r ++ cl!", " ++ natChars c ++ cl!")_" ++ hex
+  | .fstr _ s => s
+  | .fnat _ n => natChars n
+  | .nargs n => natChars n
+  | .rangeSize n tr => natChars n ++ (if tr then cl!", transposed" else [])
+  | .fint _ i => intChars i
+  | .fnats _ ns => listChars ns
+  | .shape ns => tupleChars ns
+  | .physics pk inner => pk ++ (match inner with | some s => cl!", inner_physics_key=" ++ s | none => [])
+  | .projRepr dsize tr =>
+      natChars dsize ++ cl!" to ? dimensions.\nThe projection maps ? elements.\n"
+        ++ (if tr then cl!"The operator is transposed." else [])
+  | _ => []
+
+/-- the piece of the key string a token stands for -/
+def Tok.chars (t : Tok) : List Char := t.lit ++ t.body
+
+/-- the key string, as a list of characters -/
+def renderL : List Tok → List Char
+  | [] => []
+  | t :: ts => t.chars ++ renderL ts
 
 /-- the key string -/
-def render (l : List Tok) : String := String.join (l.map Tok.toStr)
+def render (l : List Tok) : String := String.ofList (renderL l)
+
+/-! ### decoding a key string into tokens -/
+
+/-- characters that end a value: a value (name, digest, number) extends to the next `,` `)` blank or `]` -/
+def isTerm (c : Char) : Bool := c == ',' || c == ')' || c == ' ' || c == ']'
+
+def isDig (c : Char) : Bool :=
+  c == '0' || c == '1' || c == '2' || c == '3' || c == '4' || c == '5' || c == '6' || c == '7' || c == '8' || c == '9'
+
+def digVal (c : Char) : Nat :=
+  if c == '1' then 1 else if c == '2' then 2 else if c == '3' then 3 else if c == '4' then 4
+  else if c == '5' then 5 else if c == '6' then 6 else if c == '7' then 7 else if c == '8' then 8
+  else if c == '9' then 9 else 0
+
+/-- longest prefix of characters satisfying `p`, and the rest -/
+def spanP (p : Char → Bool) : List Char → List Char × List Char
+  | [] => ([], [])
+  | c :: cs => if p c then ((spanP p cs).1.cons c, (spanP p cs).2) else ([], c :: cs)
+
+/-- `some rest` if `cs = lit ++ rest` -/
+def stripPrefix : List Char → List Char → Option (List Char)
+  | [], cs => some cs
+  | _ :: _, [] => none
+  | a :: l, c :: cs => if a = c then stripPrefix l cs else none
+
+def valNat (cs : List Char) : Nat := cs.foldl (fun a c => 10 * a + digVal c) 0
+
+/-- a decimal number at the beginning of `cs` -/
+def takeNat (cs : List Char) : Option (Nat × List Char) :=
+  let d := spanP isDig cs
+  if d.1.isEmpty then none else some (valNat d.1, d.2)
+
+def takeInt (cs : List Char) : Option (Int × List Char) :=
+  match stripPrefix ['-'] cs with
+  | some r =>
+    match takeNat r with
+    | some (n, r') => if n = 0 then none else some (Int.negSucc (n - 1), r')
+    | none => none
+  | none =>
+    match takeNat cs with
+    | some (n, r') => some (Int.ofNat n, r')
+    | none => none
+
+/-- `a, b, c` up to the first character that continues neither a number nor the separator -/
+def takeNatsSep : Nat → List Char → Option (List Nat × List Char)
+  | 0, _ => none
+  | fuel + 1, cs =>
+    match takeNat cs with
+    | none => none
+    | some (n, r) =>
+      match stripPrefix [',', ' '] r with
+      | some r' =>
+        match takeNatsSep fuel r' with
+        | some (l, r'') => some (n :: l, r'')
+        | none => none
+      | none => some ([n], r)
+
+/-- python list of ints -/
+def takeList (cs : List Char) : Option (List Nat × List Char) :=
+  match stripPrefix ['['] cs with
+  | none => none
+  | some r =>
+    match stripPrefix [']'] r with
+    | some r' => some ([], r')
+    | none =>
+      match takeNatsSep r.length r with
+      | some (l, r2) =>
+        match stripPrefix [']'] r2 with
+        | some r3 => some (l, r3)
+        | none => none
+      | none => none
+
+/-- python tuple of ints -/
+def takeTuple (cs : List Char) : Option (List Nat × List Char) :=
+  match stripPrefix ['('] cs with
+  | none => none
+  | some r =>
+    match stripPrefix [')'] r with
+    | some r' => some ([], r')
+    | none =>
+      match takeNatsSep r.length r with
+      | some (l, r2) =>
+        match stripPrefix (if l.length = 1 then [',', ')'] else [')']) r2 with
+        | some r3 => some (l, r3)
+        | none => none
+      | none => none
+
+/-- the literals the lexer tries, in this order, each with the token shape it announces
+    (`, ` alone — the member separator — is tried last, every field label starts with it) -/
+def protos : List Tok :=
+  [ .op .add, .op .sub, .op .mul, .op .div, .op .pow, .op .matmul, .ev, .sp,
+    .lpar .var, .lpar .mdvar, .lpar .tdda, .lpar .dense, .lpar .proj, .lpar .plist, .lpar .div,
+    .lpar .function, .lpar .merged, .rpar, .rbr, .scalar [], .sparse [] 0 0 [],
+    .fstr .name [], .fstr .hash [], .fstr .rangeIdx [], .fstr .domainIdx [], .fstr .matrixKey [],
+    .dtype .subdomains, .dtype .interfaces, .dtype .boundary,
+    .fnat .domain 0, .fnat .domainSize 0, .fnat .dim 0, .fnat .fnId 0, .nargs 0, .rangeSize 0 false,
+    .fint .timeStep 0, .fint .iterate 0, .fnats .domains [], .fnats .subdomains [], .shape [],
+    .physics [] none, .comma ]
+
+/-- read the value(s) of a token of the same shape as `proto` -/
+def parseBody (proto : Tok) (cs : List Char) : Option (Tok × List Char) :=
+  match proto with
+  | .scalar _ => let v := spanP (fun c => !isTerm c) cs; some (.scalar v.1, v.2)
+  | .sparse .. =>
+    let f := spanP (fun c => c != '(') cs
+    match stripPrefix ['_'] f.1.reverse, stripPrefix ['('] f.2 with
+    | some fr, some r1 =>
+      match takeNat r1 with
+      | some (rows, r1') =>
+        match stripPrefix [',', ' '] r1' with
+        | some r2 =>
+          match takeNat r2 with
+          | some (cols, r2') =>
+            match stripPrefix [')', '_'] r2' with
+            | some r3 =>
+              let h := spanP (fun c => !isTerm c) r3
+              some (.sparse fr.reverse rows cols h.1, h.2)
+            | none => none
+          | none => none
+        | none => none
+      | none => none
+    | _, _ => none
+  | .fstr l _ => let v := spanP (fun c => !isTerm c) cs; some (.fstr l v.1, v.2)
+  | .fnat l _ => (takeNat cs).map (fun (n, r) => (.fnat l n, r))
+  | .nargs _ => (takeNat cs).map (fun (n, r) => (.nargs n, r))
+  | .rangeSize .. =>
+    match takeNat cs with
+    | some (n, r) =>
+      match stripPrefix (cl!", transposed") r with
+      | some r' => some (.rangeSize n true, r')
+      | none => some (.rangeSize n false, r)
+    | none => none
+  | .fint l _ => (takeInt cs).map (fun (i, r) => (.fint l i, r))
+  | .fnats l _ => (takeList cs).map (fun (ns, r) => (.fnats l ns, r))
+  | .shape _ => (takeTuple cs).map (fun (ns, r) => (.shape ns, r))
+  | .physics .. =>
+    let v := spanP (fun c => !isTerm c) cs
+    match stripPrefix (cl!", inner_physics_key=") v.2 with
+    | some r' => let w := spanP (fun c => !isTerm c) r'; some (.physics v.1 (some w.1), w.2)
+    | none => some (.physics v.1 none, v.2)
+  | t => some (t, cs)
+
+/-- the first literal of `ps` that `cs` starts with decides the token -/
+def lexWith : List Tok → List Char → Option (Tok × List Char)
+  | [], _ => none
+  | p :: ps, cs =>
+    match stripPrefix p.lit cs with
+    | some r => parseBody p r
+    | none => lexWith ps cs
+
+/-- one token from the beginning of a key string -/
+def lexOne (cs : List Char) : Option (Tok × List Char) := lexWith protos cs
+
+/-- decode a key string (`fuel` ≥ number of tokens; the length of the string suffices) -/
+def lexAux : Nat → List Char → Option (List Tok)
+  | _, [] => some []
+  | 0, _ :: _ => none
+  | fuel + 1, cs =>
+    match lexOne cs with
+    | some (t, r) => (lexAux fuel r).map (t :: ·)
+    | none => none
+
+def lex (cs : List Char) : Option (List Tok) := lexAux cs.length cs
+
+/-! ### well-formed token lists: what a key can contain -/
+
+/-- a value must not contain a character that ends values -/
+def valOk (s : Str) : Bool := s.all (fun c => !isTerm c)
+
+def wfTok : Tok → Bool
+  | .scalar r => valOk r
+  | .sparse fmt _ _ hex => valOk fmt && fmt.all (fun c => c != '(') && valOk hex
+  | .fstr .domainSizeOld _ => false
+  | .fstr _ s => valOk s
+  | .physics pk inner => valOk pk && (match inner with | some s => valOk s | none => true)
+  | .projRepr .. => false
+  | _ => true
+
+/-- the token ends with a value of open length (the next character must end it) -/
+def openEnd : Tok → Bool
+  | .scalar _ | .sparse .. | .fstr .. | .fnat .. | .nargs _ | .fint .. | .physics .. => true
+  | .rangeSize _ tr => !tr
+  | _ => false
+
+/-- the token starts with a character that ends values -/
+def termStart (t : Tok) : Bool :=
+  match t.lit with
+  | c :: _ => isTerm c
+  | [] => false
+
+/-- `t'` may follow `t`: a value is ended by the next token; the member separator `, ` is followed by a member -/
+def follows (t t' : Tok) : Bool :=
+  (!openEnd t || termStart t') && (t != .comma || (match t' with | .lpar _ => true | _ => false))
+
+def wfList : List Tok → Bool
+  | [] => true
+  | [t] => wfTok t && t != .comma
+  | t :: t' :: r => wfTok t && follows t t' && wfList (t' :: r)
+
+/-- names and digests of a tree are free of the delimiter characters -/
+def wfProj (p : Proj) : Bool := valOk p.rng && valOk p.dom
+
+def wfLeaf : Leaf → Bool
+  | .var name .. => valOk name
+  | .mdvar name .. => valOk name
+  | .tdda name .. => valOk name
+  | .scalar r => valOk r
+  | .dense _ hash => valOk hash
+  | .sparse fmt _ _ hex => valOk fmt && fmt.all (fun c => c != '(') && valOk hex
+  | .proj p => wfProj p
+  | .plist ps => ps.all wfProj
+  | .div .. => true
+  | .merged name _ _ mk pk inner =>
+      valOk name && valOk mk && valOk pk && (match inner with | some s => valOk s | none => true)
+
+mutual
+def wfTree : Tree → Bool
+  | .leaf l => wfLeaf l
+  | .bin _ a b => wfTree a && wfTree b
+  | .eval fname _ args => valOk fname && wfArgs args
+def wfArgs : Args → Bool
+  | .nil => true
+  | .cons t ts => wfTree t && wfArgs ts
+end
 
 end PorepyVerif.C45
